@@ -16,7 +16,7 @@ table = '| seeded id | change | needs | detected by |\n|---|---|---|---|\n' + '\
 p = os.path.join(ROOT, 'DESIGN.md')
 s = open(p).read()
 a = s.index('| seeded id | change | needs | detected by |')
-b = s.index('## 12. Running')
+b = s.index('## 11b.') if '## 11b.' in s else s.index('## 12. Running')
 s = s[:a] + table + '\n' + s[b:]
 open(p, 'w').write(s)
 print(len(rows), 'rows')
